@@ -253,7 +253,12 @@ auto harris_michael_list_based_set<Key, Policies...>::iterator::operator++() -> 
   auto next = info.cur->next.load(std::memory_order_relaxed);
   guard_ptr tmp_guard;
   // (1) - this acquire-load synchronizes-with the release-CAS (7, 8, 10, 13)
-  if (next.mark() == 0 && tmp_guard.acquire_if_equal(info.cur->next, next, std::memory_order_acquire)) {
+  while (next.mark() == 0 && !tmp_guard.acquire_if_equal(info.cur->next, next, std::memory_order_acquire)) {
+    // cur is not marked, only its successor has changed (insert/erase right behind cur) -> retry with the new successor;
+    // calling find(cur->key) here would find cur itself and yield it a second time
+    next = info.cur->next.load(std::memory_order_relaxed);
+  }
+  if (next.mark() == 0) {
     info.prev = &info.cur->next;
     info.save = std::move(info.cur);
     info.cur = std::move(tmp_guard);
